@@ -174,6 +174,10 @@ func (fr *Frame) unknownCall(in ssa.Instruction, name string, args []*Val, resT 
 		}
 	}
 	r := vc.freshTuple("ret."+mangle(shortName(name)), resT)
+	if pure {
+		fr.cur = fr.cur.Havoc(map[string]bool{"$alloc": true}, "a")
+	}
+	fr.resultsAllocated(r)
 	// fmt.Errorf / errors.New return non-nil errors
 	if name == "fmt.Errorf" || name == "errors.New" {
 		fr.assume(not(eq("(if-tag "+r.T+")", "0")))
@@ -504,7 +508,11 @@ func (fr *Frame) applyContract(in ssa.Instruction, callee *ssa.Function, cc *ssa
 		n := vc.callCount[ck]
 		vc.callCount[ck] = n + 1
 		pos := vc.P.SSA.Fset.Position(in.Pos())
-		vc.addObl(&Obligation{Kind: "pre", Anchor: fmt.Sprintf("%s#%d/req%d", c.Func, n, k), Props: c.ClauseProps(rq), Desc: fmt.Sprintf("precondition of %s: %s (call at %s:%d)", c.Func, rq.Src, shortFile(pos.Filename), pos.Line),
+		props := c.ClauseProps(rq)
+		if len(props) == 0 && fr.c != nil {
+			props = fr.c.Props // preconditions of library contracts belong to the caller's property
+		}
+		vc.addObl(&Obligation{Kind: "pre", Anchor: fmt.Sprintf("%s#%d/req%d", c.Func, n, k), Props: props, Desc: fmt.Sprintf("precondition of %s: %s (call at %s:%d)", c.Func, rq.Src, shortFile(pos.Filename), pos.Line),
 			File: pos.Filename, Line: pos.Line, Goals: []Goal{{fr.here(), cond}}, Mark: vc.S.Mark()})
 		fr.assume(cond)
 	}
@@ -514,7 +522,8 @@ func (fr *Frame) applyContract(in ssa.Instruction, callee *ssa.Function, cc *ssa
 	} else if len(c.Modifies) > 0 {
 		fr.cur = fr.applyModifies(env, c, pre)
 	} else {
-		fr.cur = pre.Derive()
+		// the callee may allocate (and return) fresh objects: allocation grows monotonically
+		fr.cur = pre.Havoc(map[string]bool{"$alloc": true}, "a")
 	}
 	for _, a := range args {
 		if a != nil && a.View != nil && len(c.Modifies) > 0 {
@@ -522,6 +531,7 @@ func (fr *Frame) applyContract(in ssa.Instruction, callee *ssa.Function, cc *ssa
 		}
 	}
 	res := vc.freshTuple("ret."+mangle(c.Func), resT)
+	fr.resultsAllocated(res)
 	env.heap = fr.cur
 	env.old = pre
 	env.bindResults(callee, cc, res)
@@ -722,4 +732,21 @@ func calleeMatches(name, pat string) bool {
 	}
 	// allow "(*T).M" to match "pkg.(*T).M"
 	return strings.HasSuffix(name, pat) && (len(name) == len(pat) || strings.ContainsAny(string(name[len(name)-len(pat)-1]), "./"))
+}
+
+// resultsAllocated: references returned by a call are nil or allocated in the post-call state.
+func (fr *Frame) resultsAllocated(r *Val) {
+	if r == nil {
+		return
+	}
+	if r.Tup != nil {
+		for _, e := range r.Tup {
+			fr.resultsAllocated(e)
+		}
+		return
+	}
+	if r.Typ == nil || r.T == "" {
+		return
+	}
+	fr.loadedRefFact(r, r.Typ)
 }
